@@ -40,8 +40,24 @@ fn kind(c: &CubeM) -> &'static str {
 
 /// assignments used to decide semantics: all of them for n <= 12 variables of support
 fn assignments(n: usize, support: u32, rng: &mut Rng) -> Vec<u64> {
+    // boundary assignments are always included: all variables true / false, alternating patterns, with and
+    // without garbage above bit 31 (value() takes a usize and must ignore what no cube can mention)
+    let boundary = [
+        0u64,
+        0xffff_ffff,
+        u64::MAX,
+        0xffff_ffff_0000_0000,
+        0x5555_5555,
+        0xaaaa_aaaa,
+        0x8000_0000,
+        0x7fff_ffff,
+        1,
+        0xffff_fffe,
+    ];
     if n <= 12 {
-        return (0..1u64 << n).collect();
+        let mut v: Vec<u64> = (0..1u64 << n).collect();
+        v.extend(boundary);
+        return v;
     }
     // enumerate the support exactly, randomise every other bit of the 32-bit assignment
     let vars: Vec<u32> = (0..32).filter(|v| (support >> v) & 1 == 1).collect();
@@ -56,6 +72,7 @@ fn assignments(n: usize, support: u32, rng: &mut Rng) -> Vec<u64> {
         }
         out.push(m);
     }
+    out.extend(boundary);
     out
 }
 
@@ -347,7 +364,7 @@ fn main() {
                 ctx.exhaustive.insert(format!("implies_lut: all cubes x all functions, n={}", n), true);
             }
             _ => {
-                let reps = if thorough { 20000 } else { 1200 };
+                let reps = if thorough { 400000 } else { 2000 };
                 for _ in 0..reps {
                     let a = wide_cube(&mut rng, 6, true);
                     let b = if rng.chance(1, 4) {
